@@ -1,6 +1,6 @@
 """C05 — include and import honour the documented context visibility.
 
-proof : Properties/C05.v (include_visibility, import_visibility_partial + _refuted, module_exports_exact,
+proof : Properties/C05.v (include_visibility, import_visibility, render_equiv, module_equiv, module_exports_exact,
         ignore_missing_scope, select_first_existing)
 tie   : T5   gen/imp_translate.py: source of new_context / _get_default_module = Model/Imp (via Lib/PyImp)
         K-rt extracted Model.Imp.render / module_of == Template.render / Template.module of generated
@@ -65,6 +65,8 @@ def judge(ctx, case, ml, real, nontriv, key):
     m, s, x, k = p["M"], p["S"], p["X"], p.get("K", "-")
     ctx.case(sample=dict(case, engine=show(real)) if nontriv else None, key=key if nontriv else None)
     ctx.count("result:" + (real.split(" ")[1] if real.startswith("E ") else "ok" if real.startswith("O ") else "other"))
+    if m != s and "C05 theorem render_equiv / module_equiv contradicted by extracted code" not in ctx.broken:
+        ctx.broken.append("C05 theorem render_equiv / module_equiv contradicted by extracted code")
     if x != "1" and "C05 theorem module_exports_exact contradicted by extracted code" not in ctx.broken:
         ctx.broken.append("C05 theorem module_exports_exact contradicted by extracted code")
     if real != s:
@@ -144,14 +146,14 @@ def run(ctx):
     # Lib/PyImp, equals the reference results that Lib/PyImp proves equal to Model/Imp's functions
     translator_tie(ctx, "imp_translate", "Gen_imp", 2)
     g = G.IGen(ctx.rng)
-    n = ctx.size(1000, 40000)
+    n = ctx.size(800, 12000)
     B = 2000
     for i in range(0, n, B):
         run_sets(ctx, jinja2, [g.tset() for _ in range(min(B, n - i))])
     # small-scope families: scope handed on before / after an assignment in every scope kind; include lists whose
     # later candidate is already loaded
     run_sets(ctx, jinja2, G.directed_sets())
-    # the recorded finding, minimal form, re-observed on every run
+    # the repaired finding C05-import-globals-from-parent, minimal form, as a regression case
     ts = {"templates": {"main": {"globals": {"mg": "MG"}, "body": [("I", ("n", "t1"), "m1", None), ("a", "m1", "a")]},
                         "t1": {"globals": {}, "body": [("s", "a", ("v", "mg"))]}},
           "main": "main", "data": {"mg": "DMG"}, "env_globals": {"g": "G"}, "objects": []}
